@@ -470,7 +470,10 @@ fn run_send(c: &SendCase) -> Outcome {
     outputs: c
       .inv
       .iter()
-      .map(|(ins, s)| OutSpec { value: 10_000, inscriptions: usize::from(*ins), runes: s.clone(), locked: false })
+      // an output that is inscribed AND runic is prepared as already locked: the wallet would
+      // otherwise name it twice in one lockunspent call, which Bitcoin Core accepts but the
+      // mock node aborts on
+      .map(|(ins, s)| OutSpec { value: 10_000, inscriptions: usize::from(*ins), runes: s.clone(), locked: *ins && !s.is_empty() })
       .collect(),
     foreign: 1,
     foreign_inscribed: false,
